@@ -28,11 +28,12 @@ inductive Exn where
   | relayRaise      -- anything raised while relaying
   | handler         -- anything raised by a message handler body
   | keyError        -- a raising dict access in Network.get_verified_by_address (runs before the prefix gate, outside any try)
+  | typeError       -- UDPv4Address(*addr) / UDPv6Address(*addr) with the wrong number of items in datagram_received
 deriving Repr, DecidableEq, Inhabited
 
 def Exn.name : Exn → String
   | .indexError => "IndexError" | .structError => "struct.error" | .cryptoRaise => "decrypt" | .relayRaise => "relay"
-  | .handler => "handler" | .keyError => "KeyError"
+  | .handler => "handler" | .keyError => "KeyError" | .typeError => "TypeError"
 
 /-- observable events -/
 inductive Ev where
@@ -245,6 +246,7 @@ structure Crypto where
   circuits : List Nat
   exits : List Nat
   maxRelayEarly : Nat
+  hopless : List Nat := []            -- circuit ids in `circuits` whose circuit has no hops yet (CREATE sent, CREATED pending)
 deriving Repr, Inhabited
 
 def tunnelBranch (env : Env) (lk : Except Exn (Option Nat)) (c : Crypto) (data : Bytes) : Out :=
@@ -261,6 +263,9 @@ def processCell (env : Env) (dec : Nat → Bytes → Dec) (lk : Except Exn (Opti
     else
       let known := c.circuits.contains cell.cid || c.exits.contains cell.cid
       if !known && !cell.plaintext then ([], none)
+      -- incoming_crypto: "circuit known, no exit socket, no hops yet, not plaintext" is dropped
+      else if c.circuits.contains cell.cid && !c.exits.contains cell.cid && c.hopless.contains cell.cid && !cell.plaintext
+        then ([], none)
       else
         let r : Dec := if cell.plaintext || !known then .ok cell.message else dec cell.cid cell.message
         match r with
@@ -293,10 +298,20 @@ def cryptoOnPacket (env : Env) (dec : Nat → Bytes → Dec) (lk : Except Exn (O
 
 /-! ### Endpoint: listener registry and delivery -/
 
+/-- StatisticsEndpoint.on_packet (the shipped non-overlay listener; registers itself with add_listener):
+    `prefix = data[:statTake]; if prefix not in tracked or len(data) < statMinLen: return; message_id = data[statIdx]` -/
+def statsOnPacket (lid : Nat) (tracked : List Bytes) (data : Bytes) : Out :=
+  Out.andThen ([.called lid], none) fun _ =>
+  if !tracked.contains (data.take Gen.statTake) || data.length < Gen.statMinLen then ([], none)
+  else match data[Gen.statIdx]? with
+    | none => ([], some .indexError)
+    | some _ => ([], none)
+
 inductive Listener where
   | community (o : Overlay)
   | crypto (c : Crypto)
-  | inert                      -- some other EndpointListener that never raises (e.g. a statistics listener)
+  | stats (tracked : List Bytes)   -- StatisticsEndpoint with these prefixes enabled
+  | inert                          -- a listener outside the package (the harness' own recorders), assumed not to raise
 deriving Repr, Inhabited
 
 structure Registry where
@@ -345,6 +360,7 @@ def listenerOnPacket (env : Env) (dec : Nat → Bytes → Dec) (lk : Except Exn 
   match lookupListener t l with
   | some (.community o) => communityOnPacket env lk l o data
   | some (.crypto c) => cryptoOnPacket env dec lk l c data
+  | some (.stats tracked) => statsOnPacket l tracked data
   | some .inert => ([.called l], none)
   | none => ([], none)
 
@@ -424,19 +440,46 @@ def initDS (r : Registry) (net : NetS) (data : Bytes) : DS :=
 def notify (env : Env) (dec : Nat → Bytes → Dec) (fuel : Nat) (r : Registry) (net : NetS) (src data : Bytes) : Out × DS :=
   dispatch env dec src data (iterKey r data) fuel (initDS r net data)
 
+/-! ### UDPEndpoint.datagram_received / UDPv6Endpoint.datagram_received — what the asyncio transport calls -/
+
+/-- `UDPv4Address(*addr)` / `UDPv6Address(*addr[:2])`: a two-field namedtuple built from the transport's address tuple.
+    `sliceTo` is the `[:n]` the source applies before the star (none = no slice), read by the translator. -/
+def addrConv (sliceTo : Option Nat) (arity : Nat) : Except Exn Unit :=
+  let n := match sliceTo with | some k => min k arity | none => arity
+  if n == 2 then .ok () else .error .typeError
+
+/-- datagram_received(datagram, addr): dropped unless running; address conversion; notify_listeners.
+    `v6` selects the UDPv6Endpoint override; `arity` is the length of the transport's address tuple
+    (2 for AF_INET, 4 for AF_INET6). -/
+def datagramReceived (env : Env) (dec : Nat → Bytes → Dec) (fuel : Nat) (running v6 : Bool) (arity : Nat)
+    (r : Registry) (net : NetS) (src data : Bytes) : Out :=
+  if !running then ([], none)
+  else match addrConv (if v6 then Gen.v6AddrSlice else Gen.v4AddrSlice) arity with
+    | .error e => ([], some e)
+    | .ok _ => (notify env dec fuel r net src data).1
+
 /-! ### Network.load_snapshot -/
 
-/-- the loop of load_snapshot: `fuel` bounds the iterations only to make the definition structural; the theorem
-    `loadSnapshot_fuel_irrelevant` shows `snapshot.length` iterations always suffice.  Result: the addresses stored, in order. -/
-def loadSnapshotLoop (snap : Bytes) : Nat → Nat → List Val
-  | 0, _ => []
+/-- the loop of load_snapshot.  `fuel` bounds the iterations only to make the definition structural
+    (`load_snapshot_total`: `snapshot.length` iterations always suffice).  The `try: … except Exception:` around the
+    entry decode and the `if offset <= previous_offset: break` inside the handler are read from the source
+    (`Gen.snapCatchAll`, `Gen.snapStuckBreak`): without the former a decode error propagates, without the latter the
+    loop retries the same offset until the fuel is gone (the code would spin forever).  Result: the addresses stored. -/
+def loadSnapshotLoop (snap : Bytes) : Nat → Nat → Except Exn (List Val)
+  | 0, off => if off < snap.length then .error .handler else .ok []     -- out of fuel with work left = non-termination
   | fuel+1, off =>
     if off < snap.length then
       match unpackAddressAt false snap off with
-      | .ok (a, off') => a :: loadSnapshotLoop snap fuel off'
-      | .error _ => []      -- offset unchanged → "got stuck" → break
-    else []
+      | .ok (a, off') =>
+        match loadSnapshotLoop snap fuel off' with
+        | .ok rest => .ok (a :: rest)
+        | .error e => .error e
+      | .error _ =>
+        if !Gen.snapCatchAll then .error .handler
+        else if Gen.snapStuckBreak then .ok []      -- offset unchanged → "got stuck" → break
+        else loadSnapshotLoop snap fuel off
+    else .ok []
 
-def loadSnapshot (snap : Bytes) : List Val := loadSnapshotLoop snap snap.length 0
+def loadSnapshot (snap : Bytes) : Except Exn (List Val) := loadSnapshotLoop snap snap.length 0
 
 end Ipv8.C03
